@@ -34,6 +34,15 @@ def run(ctx: core.Ctx):
     b2check.run_b2(ctx, jobs, ["C15"], label="lifecycle scenarios")
     b2check.run_b2(ctx, lambda rng, th: [(gen.conn_port_dies(rng), rng.randrange(10 ** 9), rng.choice([0, 3])) for _ in range(4000 if th else 120)],
                    ["C15"], label="transport ends without raising (port reports closed), monitor only", accept=False)
+    def jobs_hot(rng, th):
+        out = []
+        for _ in range(6000 if th else 150):
+            spec = gen.conn_lifecycle(rng)
+            spec["hot"] = "connection_lost"          # thread switches between any two bytecodes of the disconnect handling
+            spec["hot_budget"] = rng.choice([5, 15, 40])
+            out.append((spec, rng.randrange(10 ** 9), rng.choice([0, 3])))
+        return out
+    b2check.run_b2(ctx, jobs_hot, ["C15"], label="lifecycle scenarios with bytecode-level preemption inside the disconnect handling, monitor only", accept=False)
     b2check.run_b2(ctx, jobs_api, ["C15"], label="link failure during / after YncaApi.initialize() (the callback given to YncaApi)")
     ctx.info["rule"] = ("sessions of two caller threads with bursts, a link drop / EOF / write error / close() inserted at a random position, close() from a caller, "
                         "from inside a message callback, from the disconnect callback, repeated and concurrent, then API calls on the dead connection; each under a "
